@@ -35,11 +35,29 @@ pub enum Kind {
     Chunked10,
     Cl8193,
     Chunked3000,
+    /// a request without a body to wait for whose head is out of the ordinary: VARIANTS[k]
+    Var(usize),
 }
+
+/// (label, request line and headers after `Host`, bytes after the head, answered as to HEAD)
+pub const VARIANTS: &[(&str, &str, &str, &str, bool)] = &[
+    ("connection-upgrade", "GET", "HTTP/1.1", "Connection: upgrade\r\nUpgrade: verif\r\n", false),
+    ("connection-keep-alive-upgrade", "GET", "HTTP/1.1", "Connection: keep-alive, Upgrade\r\nUpgrade: websocket\r\n", false),
+    ("connection-keep-alive", "GET", "HTTP/1.1", "Connection: keep-alive\r\n", false),
+    ("http10-keep-alive", "GET", "HTTP/1.0", "Connection: keep-alive\r\n", false),
+    ("content-length-1-keep-alive", "POST", "HTTP/1.1", "Connection: Keep-Alive\r\nContent-Length: 1\r\n", false),
+    ("te-header", "GET", "HTTP/1.1", "TE: trailers, chunked;q=0.5\r\n", false),
+    ("head-method", "HEAD", "HTTP/1.1", "", true),
+    ("options-method", "OPTIONS", "HTTP/1.1", "Content-Length: 0\r\n", false),
+    ("forty-headers", "GET", "HTTP/1.1", "", false),
+];
 
 impl Kind {
     fn small(&self) -> bool {
-        matches!(self, Kind::None | Kind::Cl1 | Kind::Cl1024)
+        matches!(self, Kind::None | Kind::Cl1 | Kind::Cl1024 | Kind::Var(_))
+    }
+    fn head_request(&self) -> bool {
+        matches!(self, Kind::Var(k) if VARIANTS[*k].4)
     }
     fn request(&self, i: usize) -> Vec<u8> {
         let p = format!("/r{}", i);
@@ -51,6 +69,20 @@ impl Kind {
             Kind::Chunked10 => post_chunked(&p, &payload(10), &[4, 6]),
             Kind::Cl8193 => post_cl(&p, &payload(8193)),
             Kind::Chunked3000 => post_chunked(&p, &payload(3000), &[1024, 1, 1975]),
+            Kind::Var(k) => {
+                let (label, method, version, headers, _) = VARIANTS[*k];
+                let mut h = headers.to_string();
+                if label == "forty-headers" {
+                    for j in 0..40 {
+                        h.push_str(&format!("X-H{}: {}\r\n", j, "v".repeat(j + 1)));
+                    }
+                }
+                let mut b = format!("{} {} {}\r\nHost: t\r\n{}\r\n", method, p, version, h).into_bytes();
+                if label == "content-length-1-keep-alive" {
+                    b.push(b'x');
+                }
+                b
+            }
         }
     }
     fn from_str(s: &str) -> Kind {
@@ -61,6 +93,7 @@ impl Kind {
             "Chunked10" => Kind::Chunked10,
             "Cl8193" => Kind::Cl8193,
             "Chunked3000" => Kind::Chunked3000,
+            v if v.starts_with("Var(") => Kind::Var(v[4..v.len() - 1].parse().unwrap_or(0)),
             _ => Kind::None,
         }
     }
@@ -250,7 +283,9 @@ pub fn judge(sc: &Sc, o: &O, res: &RunResult) -> Vec<(String, String)> {
         f.push((format!("wrong-requests:{}", class), format!("obtained {:?}, sent {:?}", got, want)));
     }
     if o.done {
-        let st = crate::httpparse::parse_stream(&o.received, &vec![false; sc.kinds.len() + sc.history]);
+        let mut heads = vec![false; sc.history];
+        heads.extend(sc.kinds.iter().map(|k| k.head_request()));
+        let st = crate::httpparse::parse_stream(&o.received, &heads);
         if st.error.is_some() || st.finals().len() != sc.kinds.len() + sc.history {
             f.push((format!("answers:{}", class), format!("{} answers for {} requests (parse error: {:?})", st.finals().len(), sc.kinds.len() + sc.history, st.error)));
         }
@@ -304,6 +339,23 @@ fn items(tier: Tier) -> &'static Vec<(Sc, u32)> {
                     if kinds.iter().any(|k| matches!(k, Kind::Cl8193 | Kind::Chunked3000)) {
                         push(kinds, &mut v);
                     }
+                }
+            }
+        }
+        // requests whose head is out of the ordinary (Connection: upgrade, explicit keep-alive,
+        // HTTP/1.0 keep-alive, Expect, TE, HEAD, OPTIONS, forty headers) anywhere in a pipeline
+        // that the application collects before answering
+        let mut vars: Vec<Kind> = vec![Kind::None, Kind::Cl1024];
+        vars.extend((0..VARIANTS.len()).map(Kind::Var));
+        for n in 2..=3usize {
+            let sp = crate::props::Space::new(&vec![vars.len(); n]);
+            for i in 0..sp.size() {
+                let kinds: Vec<Kind> = sp.decode(i).into_iter().map(|d| vars[d]).collect();
+                // a request that announces an upgrade is the last one the library reads on its
+                // connection (what follows belongs to the new protocol): last position only
+                let upgrade_inside = kinds[..n - 1].iter().any(|k| matches!(k, Kind::Var(j) if VARIANTS[*j].0.contains("upgrade")));
+                if kinds.iter().any(|k| matches!(k, Kind::Var(_))) && !upgrade_inside {
+                    push(kinds, &mut v);
                 }
             }
         }
@@ -362,7 +414,7 @@ impl Check for C11 {
         format!(
             "pipelines of n = 2..{} requests over body kinds {{none, Content-Length 1 / 1024 / 1025, chunked 10}} and n = {}..8 over {{none, Content-Length 1024}}, sent in one piece; application program: pipelines whose bodies are all absent or <= 1024 bytes: collect all n requests with recv() before answering any (a request that does not become available leaves the application blocked: deadlock report = violation); otherwise a request with a larger or chunked body is read to its end (read_to_end; one read of exactly the body length then a read returning 0; blocks dividing the length; byte by byte) / answered / dropped and then the successor is waited for; plus pipelines of up to 300 (thorough 2000) body-less / 1-byte-body requests collected before any answer, and pipelines of 3 collected after histories of 1..140, 255..257 (thorough 1..300, 511, 512, 1023..1025) answered exchanges on the same connection (default schedule); {} scenarios, all schedules with at most 1 deviation (strict) for n <= {}, default schedule beyond{}; non-trivial = all",
             if full(tier) { 4 } else { 3 }, if full(tier) { 5 } else { 4 }, items(tier).len(), if full(tier) { 3 } else { 2 },
-            if deep(tier) { " || thorough adds: every pipeline of 5 over the five kinds, pipelines of 2..3 containing Content-Length 8193 or a 3000-byte body in chunks 1024/1/1975, and bounds 3 (n <= 2) / 2 (n = 3) / 1 (n <= 5)" } else { "" }
+            if deep(tier) { " || pipelines of 2..3 over {none, Content-Length 1024, and nine requests whose head is out of the ordinary: Connection: upgrade + Upgrade, Connection: keep-alive, Upgrade, explicit keep-alive, HTTP/1.0 keep-alive, a 1-byte body with Connection: Keep-Alive, TE, HEAD, OPTIONS, forty headers} with at least one of the nine (the two that announce an upgrade only in the last position: the library reads no further request after them), collected before any is answered || thorough adds: every pipeline of 5 over the five kinds, pipelines of 2..3 containing Content-Length 8193 or a 3000-byte body in chunks 1024/1/1975, and bounds 3 (n <= 2) / 2 (n = 3) / 1 (n <= 5)" } else { " || pipelines of 2..3 over {none, Content-Length 1024, and nine requests whose head is out of the ordinary: Connection: upgrade + Upgrade, Connection: keep-alive, Upgrade, explicit keep-alive, HTTP/1.0 keep-alive, a 1-byte body with Connection: Keep-Alive, TE, HEAD, OPTIONS, forty headers} with at least one of the nine (the two that announce an upgrade only in the last position: the library reads no further request after them), collected before any is answered" }
         )
     }
     fn assumptions(&self) -> Vec<String> {
